@@ -123,6 +123,11 @@ func driveC13Cold(c *Ctx) {
 			return fmt.Sprintf("%v %s", err != nil, b)
 		case 2:
 			t := TypeCorpus[(op.I*8+op.J)%len(TypeCorpus)]
+			if len(w.tsSpec) > 0 && op.J%2 == 0 {
+				if rel := CorpusMentioning[w.tsSpec[op.I%len(w.tsSpec)]]; len(rel) > 0 {
+					t = TypeCorpus[rel[(op.I/2+op.J/2)%len(rel)]]
+				}
+			}
 			o := opts
 			if op.J%3 == 0 {
 				o = nil
